@@ -49,6 +49,8 @@ type Device struct {
 	// and modify state on the fly (changing octave, channel etc.), NoteOff events will be emitted correctly anyway.
 	noteTracker       map[noteKey][2]byte // 1: note, 2: channel
 	analogNoteTracker map[string][2]byte  // 1: note, 2: channel
+	// action currently held by an axis (identifier as in analogNoteTracker)
+	axisActionTracker map[string]config.Action
 	// used to track active occurrence number for given channel/note for purpose of handling clashed notes.
 	// more info in hidi.toml at "collision_mode" option.
 	activeNotesCounter map[byte]map[byte]int // map[channel]map[note]occurrence_number
@@ -140,6 +142,7 @@ func NewDevice(
 		noteTracker:        make(map[noteKey][2]byte, 32),
 		keyTracker:         make(map[evdev.EvCode]struct{}, 32),
 		analogNoteTracker:  make(map[string][2]byte, 32),
+		axisActionTracker:  make(map[string]config.Action, 8),
 		activeNotesCounter: activeNoteCounter,
 		actionTracker:      make(map[config.Action]bool, 16),
 		ccZeroed:           make(map[[2]byte]bool, 32),
@@ -194,6 +197,17 @@ func (d *Device) releaseAxisAction(action config.Action) {
 	}
 	d.invokeActionRelease(action)
 	delete(d.actionTracker, action)
+}
+
+// releaseHeldAxisAction releases the action the axis has been holding (possibly since another mapping was active),
+// unless it is the one the axis is about to trigger again
+func (d *Device) releaseHeldAxisAction(identifier string, next config.Action) {
+	held, ok := d.axisActionTracker[identifier]
+	if !ok || held == next {
+		return
+	}
+	delete(d.axisActionTracker, identifier)
+	d.releaseAxisAction(held)
 }
 
 func (d *Device) checkDoubleActions() bool {
